@@ -243,6 +243,91 @@ def run_history(ctx, hseed, maxops):
     return steps, problems, trace
 
 
+def _sage_history(seed):
+    """one SAGE model built and solved repeatedly from the SAME constraint objects vs a fresh copy each time; then the same
+    Variables in a nonlinear constraint created after clear_variable_indices (the generation mix comes from the epigraph Variables)"""
+    import sageopt.coniclifts as cl
+    from sageopt.coniclifts.cones import Cone
+    rng = random.Random(seed)
+    problems = []
+    m = rng.randint(3, 4)
+    alpha = np.array([[float(k)] for k in range(m)])
+    coef = [float(rng.choice([1, 2, 3])) for _ in range(m)]
+    neg = rng.randrange(1, m - 1)
+    coef[neg] = -float(rng.choice([1, 2]))
+    primal = rng.random() < 0.6
+    tail = rng.random() < 0.5
+
+    def make(tag):
+        g = cl.Variable(name='c11g_%d_%s' % (seed, tag))
+        if primal:
+            cvec = cl.Expression([coef[0] - g] + coef[1:])
+            cons = [g <= 5, cl.PrimalSageCone(cvec, alpha, None, 'c11sage_%d_%s' % (seed, tag))]
+            obj, sense = g, cl.MAX
+        else:
+            v = cl.Variable(shape=(m,), name='c11v_%d_%s' % (seed, tag))
+            cons = [cl.DualSageCone(v, alpha, None, 'c11dual_%d_%s' % (seed, tag), c=np.array(coef)), v[0] == 1, g == np.array(coef) @ v]
+            obj, sense = g, cl.MIN
+        if tail:
+            w = cl.Variable(shape=(6,), name='c11w_%d_%s' % (seed, tag))
+            cons.append(cl.PrimalProductCone(w + 1.0, [Cone('+', 6)]))
+        return cons, obj, sense, g
+
+    def observe(cons, obj, sense):
+        try:
+            prob = cl.Problem(sense, obj, cons)
+            st_, val = prob.solve(solver='ECOS', verbose=False)
+            return {'status': st_, 'value': float(val), 'shape': list(prob.A.shape), 'nnz': int(prob.A.nnz),
+                    'K': sorted(Counter((co.type, int(co.len)) for co in prob.K).items())}
+        except Exception as e:  # noqa: BLE001
+            return {'raises': type(e).__name__, 'msg': str(e)[:120]}
+    cons, obj, sense, g = make('hist')
+    for k in range(3):
+        got = observe(cons, obj, sense)
+        fcons, fobj, fsense, _ = make('fresh%d' % k)
+        want = observe(fcons, fobj, fsense)
+        same = same_value(got, want)
+        if same is None:
+            continue
+        if not same or ('K' in got and 'K' in want and (got['K'], got['shape']) != (want['K'], want['shape'])):
+            problems.append(('%s SAGE model built and solved for the %s time from the same constraint objects: %s, a freshly built copy: %s'
+                             % ('primal' if primal else 'dual', ['first', 'second', 'third'][k], got, want), {'sage_seed': seed}))
+            break
+    # generation mix through epigraph Variables only
+    x = cl.Variable(shape=(2,), name='c11gx_%d' % seed)
+    t = cl.Variable(name='c11gt_%d' % seed)
+    cl.clear_variable_indices()
+    mixed = [cl.vector2norm(x) <= t, x[0] + x[1] == 2]
+    for k in range(2):
+        try:
+            cl.compile_constrained_system(mixed)
+            problems.append(('a nonlinear constraint created after clear_variable_indices over Variables created before it (its epigraph '
+                             'Variable belongs to the new generation) was compiled without error on compile #%d' % (k + 1), {'sage_seed': seed}))
+            break
+        except RuntimeError:
+            pass
+        except Exception as e:  # noqa: BLE001
+            problems.append(('mixed-generation compile raised %s instead of the documented RuntimeError' % type(e).__name__, {'sage_seed': seed}))
+            break
+    return problems
+
+
+def sage_stream(ctx, rng, count):
+    out = []
+    for _ in range(count):
+        seed = rng.randrange(1 << 30)
+        kind, res = common.forked(_sage_history, seed, timeout=300)
+        ctx.case({'stream': 'sage-history', 'seed': seed})
+        ctx.count('stream:sage-history')
+        if kind == 'exception':
+            raise RuntimeError('sage history raised in the child: %s' % res)
+        if kind != 'ok':
+            ctx.incon('sage history: solver %s' % kind)
+            continue
+        out += res
+    return out
+
+
 def settings_stream(ctx, rng, count):
     """construct a SAGE constraint, flip a global default, compile: the compiled system must be that of a constraint
     constructed AND compiled under the original defaults (implementation-level; the row-level model is C01/C02)"""
@@ -357,6 +442,7 @@ def run(ctx):
         else:
             ctx.traces_validated += 1
     all_problems += settings_stream(ctx, rng, 30 if quick else 300)
+    all_problems += sage_stream(ctx, rng, 12 if quick else 100)
     for what, rep in all_problems:
         tags = []
         ctx.violation('history: ' + what, rep, tags=tags)
@@ -374,6 +460,10 @@ def run(ctx):
 def replay(obj):
     r = obj['replay']
     print('what:', obj['what'])
+    if 'sage_seed' in r:
+        for what, _ in _sage_history(r['sage_seed']):
+            print('  ', what)
+        return 1
     if 'hseed' in r:
         class C:
             def incon(self, *a):
